@@ -19,6 +19,10 @@ Inductive case :=
 (* vm.go copyReturnValues(L, regv, start, n, b) on a registry holding cells (top = len cells) with
    stale cells above: the top and the live cells afterwards *)
 | CCopyRet (cells above : list cell) (pad : Z) (regv start n b : Z) (obs_top : Z) (obs_cells : list cell)
+(* state.go initCallFrame of a fixed-arity Lua function (np parameters, nregs registers) handed nargs
+   arguments at LocalBase lb, on a registry holding cells (top = len cells) with stale cells above:
+   the top and the raw array (up to the end of `above`, or the new top if that is higher) afterwards *)
+| CInitLua (cells above : list cell) (pad : Z) (lb nargs np nregs : Z) (obs_top : Z) (obs_arr : list cell)
 (* an object-level API call against the same operator evaluated by a Lua chunk: both sides encoded
    as integer traces (result, then the metamethod log) *)
 | CObj (op : Z) (api lua : list Z)
@@ -47,6 +51,11 @@ Definition check_impl (c : case) : bool :=
   | CCopyRet cells above pad regv start n b otop ocells =>
       match copyReturnValues (mkR [] cells above pad 0 0) regv start n b with
       | Ok r' => (top r' =? otop) && cells_eqb (live r') ocells
+      | _ => false
+      end
+  | CInitLua cells above pad lb nargs np nregs otop oarr =>
+      match initLuaFixed (mkR [] cells above pad 0 0) lb nargs np nregs with
+      | Ok r' => (top r' =? otop) && cells_eqb (firstn (length oarr) (arr r')) oarr
       | _ => false
       end
   | CObj _ api lua => list_eqb Z.eqb api lua
@@ -84,6 +93,16 @@ Definition check_spec (c : case) : bool :=
       (* towards lower registers, inside the frame: n values, the returned ones first, then nil *)
       if (0 <=? regv) && (regv <=? start) && (start + Z.max 0 (b - 1) <=? len cells) && (0 <=? n) && (0 <=? b) then
         (otop =? regv + n) && cells_eqb (firstn (Z.to_nat regv) cells ++ resizeL (retvals cells start b) n) ocells
+      else true
+  | CInitLua cells above pad lb nargs np nregs otop oarr =>
+      (* the frame is the first np arguments, nil up to nregs registers; everything below LocalBase is as before;
+         the cells above the registers the frame clears are as before (dead values are not cleared) *)
+      if (1 <=? lb) && (0 <=? nargs) && (lb + nargs <=? len cells) && (0 <=? np) && (np <=? nregs) then
+        let args := firstn (Z.to_nat nargs) (skipn (Z.to_nat lb) cells) in
+        let hi := lb + Z.max (Z.max nargs np) nregs in
+        (otop =? lb + nregs)
+        && cells_eqb (firstn (Z.to_nat otop) oarr) (firstn (Z.to_nat lb) cells ++ resizeL (resizeL args np) nregs)
+        && cells_eqb (skipn (Z.to_nat hi) oarr) (skipn (Z.to_nat hi) (cells ++ above))
       else true
   | CObj _ api lua => list_eqb Z.eqb api lua
   | CObjDev _ api lua _ => list_eqb Z.eqb api lua
